@@ -124,10 +124,12 @@ var retShapes = map[string]retShapeDef{
 	"i64s": {[]string{"O64", "S"}, func(s *retSess) flamego.Handler {
 		return func() (int64, string) { return s.cur[0].(int64), s.str(1) }
 	}},
-	"es":  {[]string{"E", "S"}, func(s *retSess) flamego.Handler { return func() (error, string) { return s.err(0), s.str(1) } }},
-	"ss":  {[]string{"S", "S"}, func(s *retSess) flamego.Handler { return func() (string, string) { return s.str(0), s.str(1) } }},
-	"si":  {[]string{"S", "I"}, func(s *retSess) flamego.Handler { return func() (string, int) { return s.str(0), s.num(1) } }},
-	"ise": {[]string{"I", "S", "E"}, func(s *retSess) flamego.Handler { return func() (int, string, error) { return s.num(0), s.str(1), s.err(2) } }},
+	"es": {[]string{"E", "S"}, func(s *retSess) flamego.Handler { return func() (error, string) { return s.err(0), s.str(1) } }},
+	"ss": {[]string{"S", "S"}, func(s *retSess) flamego.Handler { return func() (string, string) { return s.str(0), s.str(1) } }},
+	"si": {[]string{"S", "I"}, func(s *retSess) flamego.Handler { return func() (string, int) { return s.str(0), s.num(1) } }},
+	"ise": {[]string{"I", "S", "E"}, func(s *retSess) flamego.Handler {
+		return func() (int, string, error) { return s.num(0), s.str(1), s.err(2) }
+	}},
 	"ips": {[]string{"I", "PS"}, func(s *retSess) flamego.Handler { return func() (int, *string) { return s.num(0), s.ps(1) } }},
 	"pse": {[]string{"PS", "E"}, func(s *retSess) flamego.Handler { return func() (*string, error) { return s.ps(0), s.err(1) } }},
 	"nis": {[]string{"MI", "MS"}, func(s *retSess) flamego.Handler {
@@ -581,11 +583,11 @@ func genRet(r *rand.Rand, tier string, emit Emit) {
 			var second string
 			switch shape {
 			case "ie":
-				second = []string{"a:nil", "a:e:n:" + hx("e" + strconv.Itoa(c))}[c%2]
+				second = []string{"a:nil", "a:e:n:" + hx("e"+strconv.Itoa(c))}[c%2]
 			case "ib":
-				second = []string{"b:nil", "b:-", "b:" + hx("b" + strconv.Itoa(c))}[c%3]
+				second = []string{"b:nil", "b:-", "b:" + hx("b"+strconv.Itoa(c))}[c%3]
 			default:
-				second = []string{"s:-", "s:" + hx("s" + strconv.Itoa(c))}[c%2]
+				second = []string{"s:-", "s:" + hx("s"+strconv.Itoa(c))}[c%2]
 			}
 			retEmitOp(emit, shape, []string{"i:" + strconv.Itoa(c), second})
 		}
